@@ -776,15 +776,19 @@ Handler::ArgResult
       handleIdentifiedArg( p_arg_hdl, key);
 
       auto  subArgHandler = static_cast< detail::TypedArgSubGroup*>( p_arg_hdl)->obj();
-      ++ai;
 
       // we may only advance the main iterator if the argument is (still)
-      // handled by the sub-argument
+      // handled by the sub-argument: the main iterator stays on the last
+      // element that was consumed (at first the sub-group argument itself), so
+      // that the first element that the sub-group handler does not know is
+      // evaluated by this handler and not skipped
       auto  subAI( ai);
+      ++subAI;
       while ((subAI != end)
              && (subArgHandler->evalSingleArgument( subAI, end) == ArgResult::consumed))
       {
-         ai = subAI++;
+         ai = subAI;
+         ++subAI;
       } // end while
 
       mpLastArg = nullptr;
